@@ -122,9 +122,9 @@ def serve_epm_reply(stub: bytes, chunker=None):
         i = state["n"]
         state["n"] += 1
         if i == 0:
-            return [rrpc.encode(dict(ptype=rrpc.BIND_ACK, flags=FL, call_id=1, auth=None, max_xmit=5840, max_recv=5840, assoc=1, sec_addr="135", results=[(0, 0, rrpc.NDR64[0], 1)]))]
+            return [rrpc.encode(dict(ptype=rrpc.BIND_ACK, flags=FL, call_id=tr.call_id_of(data), auth=None, max_xmit=5840, max_recv=5840, assoc=1, sec_addr="135", results=[(0, 0, rrpc.NDR64[0], 1)]))]
         h.last = True
-        raw = rrpc.header(rrpc.RESPONSE, FL, 24 + len(stub), 0, 1) + struct.pack("<IHBB", len(stub), 0, 0, 0) + stub
+        raw = rrpc.header(rrpc.RESPONSE, FL, 24 + len(stub), 0, tr.call_id_of(data)) + struct.pack("<IHBB", len(stub), 0, 0, 0) + stub
         return [raw]
 
     h.last = False
